@@ -665,7 +665,7 @@ Proof.
     + exfalso. destruct (continue V C (PHsAuth ip0 k) s) as [[p1 s1] r1] eqn:Es. injection Hs as <- <-.
       cbn [continue] in Es. destruct (hk_fails k).
       * destruct (do_fail_a_pc _ _ _ _ _ _ _ _ Es) as [Hb _]. congruence.
-      * pair_inv Es. cbn in H1. congruence.
+      * pair_inv Es. destruct (anon_resets V); cbn in H1; congruence.
 Qed.
 
 (* a RecordFailure(ip) is left pending a ban exactly when the counters say so *)
@@ -783,3 +783,32 @@ Definition thr_quiet (ip : N) (l : lo) : Prop :=
   | _ => True
   end.
 Definition total_of (r : option frec) : Z := match r with Some x => snd x | None => 0 end.
+
+(* ------------------------------------------------------------------------------------------- *)
+(* third defect of the pinned tree: registering a new anonymous client (no credential proven)   *)
+(* clears the failure record, so interleaved "new-client" handshakes keep an attacker below     *)
+(* MaxFailures for ever                                                                        *)
+(* ------------------------------------------------------------------------------------------- *)
+Definition wit3_threads : list lo := [LProg PIdle [CHs 7 HBad; CHs 7 HAnonOk; CHs 7 HBad; CQuery 7] []].
+Definition wit3_sched : list nat := repeat O 14.
+
+(* maxf = 2, the clock never moves: two failed authentications (result 3) from one address at the same
+   instant, one anonymous registration (result 4) between them, and the address is not banned *)
+Lemma pinned_anon_registration_resets_refuted :
+  exists C ip threads sched,
+    let s2 := runs pinned_variant C (init_sh, threads) sched in
+    maxf C = 2 /\ now (fst s2) = 0 /\
+    nth_error (snd s2) 0 = Some (LProg PIdle [] [3; 4; 3; 0]%N) /\ is_banned (fst s2) ip = false.
+Proof.
+  exists wit_cfg, 7%N, wit3_threads, wit3_sched. vm_compute. repeat split; reflexivity.
+Qed.
+
+Lemma current_counts_across_registration :
+  let s2 := runs current_variant wit_cfg (init_sh, wit3_threads) wit3_sched in
+  nth_error (snd s2) 0 = Some (LProg PIdle [] [3; 4; 3; 1]%N) /\ is_banned (fst s2) 7 = true.
+Proof. vm_compute. split; reflexivity. Qed.
+
+(* repaired code: a successful anonymous registration leaves the shared state untouched at its last step *)
+Lemma anon_registration_keeps_failures C ip s :
+  continue current_variant C (PHsAuth ip HAnonOk) s = (PIdle, s, Some 4%N).
+Proof. reflexivity. Qed.
